@@ -160,27 +160,35 @@ impl ShardAssignment {
     async fn assign_consistent_hash(&self, shard_id: &str) -> Result<String> {
         let ring = self.hash_ring.read().await;
 
+        // The ring may still hold nodes that stopped being eligible since it was built
+        // (drained, failed, overloaded, removed). Handing such a node out again makes the
+        // write router unassign and retry forever.
         if let Some(node_id) = ring.get_node(shard_id) {
-            Ok(node_id)
-        } else {
-            // Ring is empty, populate it
-            drop(ring);
-            let mut ring = self.hash_ring.write().await;
-            let nodes = self.node_registry.get_healthy_ingesters().await;
-
-            if nodes.is_empty() {
-                return Err(crate::Error::Internal(
-                    "No healthy ingester nodes".to_string(),
-                ));
+            if let Some(node) = self.node_registry.get_node(&node_id).await {
+                if node.can_accept_writes() {
+                    return Ok(node_id);
+                }
             }
-
-            for node in &nodes {
-                ring.add_node(&node.id);
-            }
-
-            ring.get_node(shard_id)
-                .ok_or_else(|| crate::Error::Internal("Failed to assign shard".to_string()))
         }
+
+        // Ring is empty or points at a node that cannot take writes: rebuild it
+        drop(ring);
+        let mut ring = self.hash_ring.write().await;
+        let nodes = self.node_registry.get_healthy_ingesters().await;
+
+        if nodes.is_empty() {
+            return Err(crate::Error::Internal(
+                "No healthy ingester nodes".to_string(),
+            ));
+        }
+
+        ring.clear();
+        for node in &nodes {
+            ring.add_node(&node.id);
+        }
+
+        ring.get_node(shard_id)
+            .ok_or_else(|| crate::Error::Internal("Failed to assign shard".to_string()))
     }
 
     /// Assign using round-robin
